@@ -118,7 +118,7 @@ Proof.
   - destruct (fresh (Es i) s); [|bframe]. apply CbEx_poll_set. bframe.
   - destruct (zmem i (estabs s)); [|bframe]. apply CbEx_log. eapply CbEx_frame; [|apply (CbEx_poll_remove ex (Es i) s H)]. reflexivity.
   - (* AWrite *) destruct (live_client i s) as [c|] eqn:E0; [apply live_client_some in E0; destruct E0 as [E Er]|bframe].
-    destruct (n <? 1); [bframe|]. destruct (c_back c =? 0).
+    destruct (n <? 0); [bframe|]. destruct (c_back c =? 0).
     + cbn zeta. destruct (failed_io _).
       * apply CbEx_log. apply CbEx_closing_append. bframe.
       * destruct (n <=? _); [bframe|]. apply CbEx_log. apply CbEx_poll_set.
